@@ -60,3 +60,9 @@ add("C08", "fault_enumeration",
     "For every corpus x SkipSortDocs x KeepMetaFile (scaled block constants so that the index has many small blocks) the journal of load + rotate + seal + release is recorded; every crash state (Model A+B) is materialised and recovered in a child, which must serve every ingested document (fetch byte-for-byte, found by each token); and each single fault kind:k, k=1..all observed operations, is injected into a real seal: whether fm.seal terminates the process or Seal returns, the documents must be served in-process (if alive) and after restart from the directory left behind. Found and repaired: write errors of ids/lids blocks were swallowed and a truncated index was published.",
     "Trusted: persistence model as C01; one fault per run; sealing of bulks of 1-3 documents.",
     "DESIGN.md §3 C08", "E2-vos")
+
+add("C15", "fault_enumeration",
+    "exhaustive crash-prefix enumeration of the journals of fraction creation / rotation / sealing / retention / deletion scripts crossed with .frac-cache variants, recovery by the real loader in child processes; retention order judged on the live store over short op sequences",
+    "Scripts of ingest, seal+rotate, real size-based retention (maintenance through Start/Stop with a budget of the newest k fractions) and explicit deletion of a never-sealed and of a sealed fraction are journaled; every journal prefix (plus torn data / cache writes), crossed with .frac-cache as is / missing / garbage / truncated / any earlier version, is recovered by the real loader in a child: the store must start, every fraction is completely served or completely gone, a fraction whose deletion has begun never reappears and untouched fractions are served; 24 further sequences check that retention leaves a suffix of the creation order. Found and repaired: an interrupted deletion of an active fraction (and an interrupted creation, see C01) left a lone .docs file that stopped every later start.",
+    "Trusted: Model A persistence (atomic, ordered, durable namespace operations); a retention budget smaller than the fraction being written is treated as misconfiguration and not generated.",
+    "DESIGN.md §3 C15", "E2-vos")
